@@ -340,6 +340,10 @@ func (e *election) Close(ctx context.Context) error {
 	e.f.mu.Lock()
 	e.f.closed++
 	e.f.mu.Unlock()
+	// the caller only logs this; an error here must change nothing
+	if kernel.HashChoice(e.f.h.s.Seed, fmt.Sprintf("election-close|%d", e.f.inc), 3) == 0 {
+		return errors.New("simulated election: Close failed")
+	}
 	return nil
 }
 
